@@ -759,7 +759,7 @@ func main() {
 			}
 		}
 		// same-key bursts, observed at quiescence
-		nBurst := e.Scale(24, 500) // rounds per (variant, single): each round = 6..16 goroutines x 24..79 keys
+		nBurst := e.Scale(36, 500) // rounds per (variant, single): each round = 8..16 goroutines x 24..79 keys
 		for _, v := range []string{"std", "tiny"} {
 			for i, m := 0, boost("burst/"+v+"/single", nBurst); i < m; i++ {
 				b := genBurst(e.Rnd, v, false)
